@@ -174,6 +174,20 @@ func genC18Layout(r *Rng, base string, allowNested bool) *c18Layout {
 	ngp := r.Intn(4)
 	var gps []*c18Root
 	for k := 0; k < ngp; k++ {
+		if k > 0 && r.Chance(1, 4) {
+			// a second remote root whose files live in the FIRST local GOPATH as well (the build machine
+			// had GOPATH=/a:/b, here everything was checked out into one tree)
+			sh := &c18Root{Kind: "gopath", Local: gps[0].Local, Remote: fmt.Sprintf("/c18shared/other%d", k)}
+			l.Roots = append(l.Roots, sh)
+			l.tag("gopath-shared-local")
+			shs := []string{fmt.Sprintf("example.com/shared%d/s%d.go", k, k), fmt.Sprintf("aaa.example/first%d/t%d.go", k, k), fmt.Sprintf("zzz.example/last%d/u%d.go", k, k)}
+			for _, i := range r.Perm(len(shs))[:1+r.Intn(3)] {
+				add(sh, "gopath", "/src/", shs[i], true, lastDir(shs[i]))
+			}
+			if r.Bool() {
+				add(sh, "gopkg", "/pkg/mod/", fmt.Sprintf("github.com/sh%d/lib@v1.0.0/v%d.go", k, k), true, "lib@v1.0.0")
+			}
+		}
 		root := &c18Root{Kind: "gopath", Local: fmt.Sprintf("%s/gp%d", base, k)}
 		opts := []string{fmt.Sprintf("/c18remote/gp%d", k), fmt.Sprintf("/home/c18ci/gopath%d", k), root.Local}
 		if k > 0 {
